@@ -45,10 +45,10 @@ ASSUMPTIONS = [
     "G3 follows the design: evaluating a doc-derived *type expression* built only from names, attributes without "
     "dunders, subscripts, tuples, constants and binary operators is tolerated (that is what the character whitelist "
     "guarantees today); any CALL*, IMPORT_NAME or dunder attribute load in input-derived code is a violation",
-    "input-derived code = a code object whose filename is <string>/<unknown> and whose exec was requested by a cdd "
-    "frame or by code that is itself input-derived, or whose filename lies inside the simulated world, or whose "
-    "constants/names mention a sentinel marker; <string> code executed by stdlib / black internals (namedtuple, "
-    "dataclasses) is not input-derived",
+    "input-derived code = a code object whose filename lies inside the simulated world, or whose filename names no "
+    "module file (<string>, <unknown>, <ast>, a made-up label) and whose exec was requested by a cdd frame or by code "
+    "that is itself input-derived, or that mentions a sentinel marker; <string> code that stdlib / black internals "
+    "build for themselves (namedtuple, dataclasses) and module files executed by an import are not input-derived",
     "for sync every file named on the command line counts as a declared output (which of them sync should rewrite is "
     "C12's subject); for doctrans the file itself; for sync_properties the --output-filename; for gen the -o file",
     "sync_properties --input-eval and gen --prepend are the stated exceptions: exempted are only exec events of the "
@@ -264,8 +264,8 @@ CMD_KINDS = ("doctrans", "gen", "sync", "sync_properties", "doctrans", "gen")
 # belong to C19; they are left out so that the runs spend their time inside parsers and emitters)
 GEN_PARSE = ("infer", "class", "function", "argparse", "sqlalchemy", "pydantic")
 GEN_EMIT = ("class", "argparse", "json_schema", "pydantic", "sqlalchemy", "sqlalchemy_table", "sqlalchemy_hybrid")
-PREPENDS = ("import colorsys", "from colorsys import rgb_to_hls\nimport json", "import json\nPWNED = open('PWNED', 'w')",
-            "from os import path")
+PREPENDS = ("import colorsys\n", "from colorsys import rgb_to_hls\nimport json\n",
+            "import json\nPWNED = open('PWNED', 'w')\n", "from os import path\n")
 EXCS = ("RuntimeError", "MemoryError", "OSError", "RecursionError", "KeyboardInterrupt")
 
 
@@ -564,6 +564,9 @@ def render_files(spec):
         "ev_in.py": "import colorsys\n\n\ndef helper(a=1):\n    \"\"\"\n    Helper.\n\n    :param a: sys.exit() or "
                     "open('PWNED', 'w'). Defaults to open('PWNED', 'w')\n    \"\"\"\n    return a\n\n\n"
                     "VALUES = tuple(sorted(('b', 'a', str(helper()))))\n",
+        # --imports-from-file copies the import statements of this file into the output as text (one statement only:
+        # gen joins them without a separator)
+        "imp.py": "import antigravity\n",
         "sentinel_mod.py": SENTINEL_MOD_SRC,
     }
     return files
@@ -630,7 +633,7 @@ def build_cmd(op, spec, idx):
         src = {"sqlalchemy": "sa.py", "sqlalchemy_table": "sa.py", "pydantic": "pyd.py"}.get(op["parse"], "m.py")
         argv = ["gen", "--name-tpl", "{name}Gen", "--input-mapping", "{ROOT}/" + src, "--parse", op["parse"],
                 "--emit", op["emit"], "-o", "{ROOT}/" + out]
-        argv += {"imports_from_file": ["--imports-from-file", "{ROOT}/" + src],
+        argv += {"imports_from_file": ["--imports-from-file", "{ROOT}/imp.py"],
                  "decorator": ["--decorator", "exit()"], "emit_call": ["--emit-call"],
                  "infer_imports": ["--emit-and-infer-imports"], "no_word_wrap": ["--no-word-wrap"]}.get(op["extra"], [])
         return {"cmd": "cli", "argv": argv}, [out], {}, [out]
@@ -638,7 +641,7 @@ def build_cmd(op, spec, idx):
         out = "out%d.py" % idx
         argv = ["gen", "--name-tpl", "{name}Gen", "--input-mapping", "{ROOT}/m.py", "--parse", op["parse"],
                 "--emit", op["emit"], "-o", "{ROOT}/" + out, "--prepend", op["text"], "--imports-from-file",
-                "{ROOT}/m.py"]
+                "{ROOT}/imp.py"]
         return {"cmd": "cli", "argv": argv}, [out], {"prepend": op["text"]}, [out]
     if k == "sync":
         argv = ["sync", "--class", "{ROOT}/cls.py", "--class-name", "Cfg", "--function", "{ROOT}/fn.py",
@@ -663,9 +666,6 @@ def build_cmd(op, spec, idx):
 
 
 # ---------------------------------------------------------------------------------------- oracle
-_INPUT_NAMES = ("<string>", "<unknown>", "<stdin>", "<input>", "<ast>", "")
-
-
 def _dunder(name):
     return isinstance(name, str) and len(name) > 4 and name.startswith("__") and name.endswith("__")
 
@@ -710,18 +710,30 @@ def _is_cdd(fn):
     return isinstance(fn, str) and fn.startswith(CDD_DIR)
 
 
+def _synthetic(fn):
+    """A code filename that names no module file: '<string>', '<unknown>', '<ast>', '', or any made-up label."""
+    if not isinstance(fn, str):
+        return False
+    if fn == "" or fn.startswith("<"):
+        return not fn.startswith("<frozen")
+    return not os.path.isfile(fn) if os.path.isabs(fn) else True
+
+
 def input_derived(world, ev):
+    """Was this executed code object compiled from text/AST that came out of the analysed input?  (module files of
+    cdd, black and the standard library executed by an import are not; neither is <string> code that stdlib
+    internals such as namedtuple build for themselves, unless it mentions a sentinel marker)"""
     code = ev.get("code")
     fn = getattr(code, "co_filename", None)
     if fn is None:
         return False
-    if fn in _INPUT_NAMES:
-        origin = ev.get("origin_file") or ""
-        if _is_cdd(origin) or origin in _INPUT_NAMES or _inside(world, origin):
-            return True
-        return _mentions_marker(code)
     if _inside(world, fn):
         return True
+    if _synthetic(fn):
+        origin = ev.get("origin_file") or ""
+        if _is_cdd(origin) or _synthetic(origin) or _inside(world, origin):
+            return True
+        return _mentions_marker(code)
     return False
 
 
@@ -777,7 +789,7 @@ def judge(world, label, o, outputs, exempt, snap_before, snap_after, mods_before
         elif kind == "import":
             origin = ev.get("origin_file") or ""
             mod = ev.get("path")
-            from_input = origin in _INPUT_NAMES or _inside(world, origin)
+            from_input = bool(origin) and (_inside(world, origin) or _synthetic(origin))
             if from_input:
                 if ev_abs is not None and os.path.abspath(os.path.join(world.root, origin)) == ev_abs:
                     continue
@@ -853,11 +865,9 @@ def judge(world, label, o, outputs, exempt, snap_before, snap_after, mods_before
 
 
 def _where(world, fn):
-    if fn in _INPUT_NAMES:
-        return fn
     if _inside(world, fn):
         return world.rel(fn) if os.path.isabs(fn) else fn
-    return "other"
+    return fn if _synthetic(fn) and fn.startswith("<") else "other"
 
 
 def _short_origin(world, origin):
@@ -918,7 +928,7 @@ def warm_up():
                     + [{"k": "sync_properties", "input_param": a, "output_param": b, "wrap": c}
                        for a in ("src.{p}", "In.{p}", "VALUE") for b in ("Out.kind", "dst.arg")
                        for c in (None, "Optional[{output_param}]")]
-                    + [{"k": "input_eval"}, {"k": "prepend", "text": "import colorsys", "parse": "infer", "emit": "class"}]):
+                    + [{"k": "input_eval"}, {"k": "prepend", "text": "import colorsys\n", "parse": "class", "emit": "class"}]):
             i += 1
             iop, outs, ex, rm = build_cmd(cmd, WARM_SPEC, i)
             for r in rm:
@@ -1121,7 +1131,7 @@ def plan(tier, seed, scale=1.0):
 
 def work(task):
     known = load_known(ID)
-    return explore(plans(), simulate, task["seed"], task["n"], known, batch=task["n"] if task["tier"] == "quick" else 100,
+    return explore(plans(), simulate, task["seed"], task["n"], known, batch=max(task["n"] // 3, 1) if task["tier"] == "quick" else 100,
                    max_classes=3, max_shrink_runs=150, max_shrink_s=25.0)
 
 
